@@ -1221,6 +1221,10 @@ class HTTPResponse(BaseHTTPResponse):
                 self._original_response.close()
                 return None
 
+            if len(self._decoded_buffer) > 0:
+                # Bytes decoded by an earlier read(amt) call come first.
+                yield self._decoded_buffer.get_all()
+
             # If a response is already read and closed
             # then return immediately.
             if self._fp.fp is None:  # type: ignore[union-attr]
